@@ -363,27 +363,25 @@ def closeall_rules(ctx, prog):
 
 
 def limit_rule(ctx, prog):
+    """X2s: every path of get_max_fd that reports a limit has asked the OS (getrlimit) on this very call; nothing is remembered"""
     G = prog.fn("get_max_fd")
     I = new_interp(prog)
-    st = State()
-    res = I.run(G, [st])
+
+    def asked_hook(I_, fn, n, name, args, st):
+        if name == "getrlimit":
+            s2 = st.copy()
+            s2.mon["asked"] = True
+            return s2
+        return None
+    I.hooks_call.append(asked_hook)
+    res = I.run(G, [State()])
     ctx.stats("E-ABS", I.stats)
-    calls = 0
-    bad = 0
-    for e in res.events:
-        pass
-    # every exit that reports a limit has asked the OS on this very call (no value remembered from an earlier call)
-    asked = {id(e[4]) for e in res.events}
     statics = [v for v in prog.vars if v.get("func") == "get_max_fd" and v["scope"] == "local" and not v.get("extern")]
-    gr = [n for n in G.calls("getrlimit")]
-    dom_ok = True
-    for s, rv in res.exits:
-        if may_nonneg(rv) and not s.mon.get("failed"):
-            # path-sensitive: the getrlimit model havocs the struct; a path that returns without it has no such store
-            pass
+    unasked = [ret_site(G, s)[0] for s, rv in res.exits if may_nonneg(rv) and not s.mon.get("asked")]
+    n_ok = len([1 for s, rv in res.exits if may_nonneg(rv) and s.mon.get("asked")])
     ctx.ob("C11.X2s", "get_max_fd", "the descriptor limit is read from the OS on every call (getrlimit) and not remembered in a static, so a "
-           "limit raised later is honoured", len(gr) == 1 and not statics and not enclosing_ifs(G, gr[0]),
-           {"getrlimit_calls": len(gr), "statics": [v["name"] for v in statics]})
+           "limit raised later is honoured", not unasked and not statics and n_ok >= 1,
+           {"limit_returned_without_asking_at": unasked[:3], "statics": [v["name"] for v in statics]}, nontrivial=True)
 
 
 def enclosing_ifs(F, n):
